@@ -36,6 +36,18 @@ class Register:
     """
 
     def __init__(self, name, size=None, alias_from=None, alias_slice=None):
+        if isinstance(size, float):
+            # e.g. a let-valued size overridden with a float
+            if not size.is_integer():
+                raise JaqalError(f"Size {size} of register {name} is not an integer.")
+            size = int(size)
+        elif isinstance(size, AnnotatedValue) and size.kind not in (
+            ParamType.INT,
+            ParamType.NONE,
+        ):
+            raise JaqalError(
+                f"Size {size.name} of register {name} is of non-integer kind {size.kind}."
+            )
         self._name = name
         self._size = size
         if (alias_from is None) and not (alias_slice is None and size is not None):
